@@ -81,8 +81,12 @@ fn main() {
         "gen" => {
             let prop = &args[2];
             let tier = if args[3] == "thorough" { props::Tier::Thorough } else { props::Tier::Quick };
-            let seed: u64 = args[4].parse().unwrap_or(1);
-            let cases = props::cases(prop, tier, seed);
+            // one seed, or several joined by ',' (the case lists are concatenated)
+            let mut cases = vec![];
+            for sd in args[4].split(',') {
+                let seed: u64 = sd.parse().unwrap_or(1);
+                cases.extend(props::cases(prop, tier, seed));
+            }
             let mut w = BufWriter::new(File::create(&args[5]).unwrap());
             let mut meta = BufWriter::new(File::create(&args[6]).unwrap());
             writeln!(meta, "[").unwrap();
